@@ -27,4 +27,11 @@ struct opt_HxcHeader { _Bool has; struct HxcHeader val; };
 struct TrackDataKey { unsigned int track_number, side_number; };
 struct TrackData { unsigned long mfmtracksize, mfmtrackoffset; };
 struct HxcMfmFile { struct HxcHeader header_; struct FileAccess *file_; };
+
+/* crc.h: class CRC16Base { unsigned long crc_; } */
+struct CRC16Base { unsigned long crc_; };
+/* track.h: class BitStream { const std::vector<byte>& input_; size_t raw_bit_size_, first_, stride_; } -- the vector is
+   its data pointer; raw_bit_size_ == 8 * size() is the class invariant established by the constructor */
+struct BitStream { const byte *input_; size_t raw_bit_size_, first_, stride_; };
+struct opt_byte { _Bool has; byte val; };
 #endif
